@@ -82,6 +82,45 @@ func (g *gen) genFaults() []*simfs.Fault {
 	return out
 }
 
+// genStalls draws the device misbehaviour of the failover profile: stall
+// episodes (operations that take much longer than the failover threshold, on
+// the fake clock) and, in some plans, write/sync/create errors, on the WAL
+// files of the primary directory and, more rarely, of the secondary.
+func (g *gen) genStalls() []*simfs.Fault {
+	thr := int64(g.cfg.FailoverThreshUs) * 1000
+	var out []*simfs.Fault
+	n := 1 + g.r.IntN(4)
+	for i := 0; i < n; i++ {
+		f := &simfs.Fault{Name: "stall-primary", PathPrefix: "/db/", Classes: simfs.ClassMask(simfs.ClsWAL)}
+		if g.r.IntN(4) == 0 {
+			f.Name, f.PathPrefix = "stall-secondary", "/wal2"
+		}
+		switch g.r.IntN(4) {
+		case 0:
+			f.Kinds = simfs.KindMask(simfs.OpSync)
+		case 1:
+			f.Kinds = simfs.KindMask(simfs.OpWrite)
+		case 2:
+			f.Kinds = simfs.KindMask(simfs.OpCreate, simfs.OpReuse, simfs.OpRename, simfs.OpSyncDir)
+			f.Classes = 0
+		default:
+			f.Kinds = simfs.KindMask(simfs.OpSync, simfs.OpWrite, simfs.OpCreate, simfs.OpReuse)
+		}
+		f.Skip = g.r.IntN(40)
+		f.Count = 1 + g.r.IntN(6)
+		f.DelayNs = thr * int64(2+g.r.IntN(30))
+		if g.r.IntN(5) == 0 {
+			// an error instead of a stall
+			f.DelayNs = 0
+			f.Errno = "EIO"
+			f.Name = strings.Replace(f.Name, "stall", "error", 1)
+			f.Count = 1 + g.r.IntN(2)
+		}
+		out = append(out, f)
+	}
+	return out
+}
+
 func (h *dbHarness) faultProfile() bool { return h.plan.Profile == "iofault" }
 
 // armFaults installs the plan's rules on the current disk (after an Open).
@@ -123,6 +162,8 @@ func (h *dbHarness) harvestFaultStats(d *simfs.Disk) {
 		h.count("faults_fired", int64(v))
 	}
 	d.St.FaultFired = map[string]int{}
+	h.delays += d.St.Delays
+	d.St.Delays = 0
 }
 
 // errorsTolerated reports whether an operation may fail right now.
@@ -130,6 +171,10 @@ func (h *dbHarness) errorsTolerated() bool {
 	if h.faultProfile() {
 		// Armed rules alone excuse nothing: an operation may fail only once an
 		// injected error has actually been returned to this incarnation.
+		return h.inc != nil && h.inc.FaultFired
+	}
+	if h.plan.Profile == "failover" {
+		// stalls excuse nothing; an injected error does
 		return h.inc != nil && h.inc.FaultFired
 	}
 	return (h.inc != nil && h.inc.FaultFired) || len(h.plan.Faults) > 0
